@@ -25,6 +25,7 @@ import (
 	"io"
 	"io/ioutil"
 	"net/url"
+	"strings"
 	"sync/atomic"
 
 	"github.com/golang/snappy"
@@ -148,7 +149,7 @@ func (a *adapter) Header(
 ) error {
 	if !a.isEnabled() {
 		for _, h := range headers {
-			if h.Name == "content-type" && h.Value == "application/grpc" {
+			if h.Name == "content-type" && isGRPCContentType(h.Value) {
 				atomic.StoreInt32(a.enabled, 1)
 				break
 			}
@@ -273,6 +274,18 @@ func (a *adapter) PushPromise(promiseID uint32, headers []hpack.HeaderField) err
 
 func (a *adapter) isEnabled() bool {
 	return atomic.LoadInt32(a.enabled) > 0
+}
+
+// isGRPCContentType reports whether v is "application/grpc", optionally followed by a subtype
+// ("+proto", "+json", ...) or by parameters.
+// See https://github.com/grpc/grpc/blob/master/doc/PROTOCOL-HTTP2.md#requests.
+func isGRPCContentType(v string) bool {
+	const base = "application/grpc"
+	if !strings.HasPrefix(v, base) {
+		return false
+	}
+	rest := v[len(base):]
+	return rest == "" || rest[0] == '+' || rest[0] == ';'
 }
 
 // emitter is a Processor implementation that wraps a h2.Processor instance, forwarding traffic to
